@@ -10,11 +10,11 @@ ALL_SEQ_OPS = {"ctopic", "gtopic", "dtopic", "ltopics", "ltsubs", "csub", "gsub"
 
 # property -> configuration.  seq: (profile, quick cases, thorough cases, max history length)
 PROPS = {
-    "C01": dict(module="Deltio.Props.C01", conc=[("mix", 120, 5000), ("cancel", 60, 2000)], trace_kinds={"post", "publish", "pull", "ack", "modify", "expire"}, seq=[("general", 150, 6000, 40), ("data", 150, 6000, 50)], pure=[],
+    "C01": dict(module="Deltio.Props.C01", conc=[("mix", 120, 5000), ("cancel", 60, 2000)], trace_kinds={"post", "publish", "pull", "ack", "modify", "expire", "end"}, seq=[("general", 150, 6000, 40), ("data", 150, 6000, 50)], pure=[],
                 relevant={"pub", "pull", "sread", "stats", "sopen"}),
-    "C02": dict(module="Deltio.Props.C02", conc=[("mix", 120, 5000)], trace_kinds={"ack", "pull"}, seq=[("data", 250, 10000, 50)], pure=["tracker", "ackids"],
+    "C02": dict(module="Deltio.Props.C02", conc=[("mix", 120, 5000)], trace_kinds={"ack"}, seq=[("data", 250, 10000, 50)], pure=["tracker", "ackids"],
                 relevant={"ack", "ssend", "pull", "sread", "stats"}),
-    "C03": dict(module="Deltio.Props.C03", conc=[("mix", 120, 5000)], trace_kinds={"pull", "expire", "modify"}, seq=[("data", 250, 10000, 50), ("batches", 40, 1500, 40)], pure=["tracker"],
+    "C03": dict(module="Deltio.Props.C03", conc=[("mix", 120, 5000), ("cancel", 80, 3000)], trace_kinds={"pull", "expire", "modify", "ack"}, seq=[("data", 250, 10000, 50), ("batches", 40, 1500, 40)], pure=["tracker"],
                 relevant={"pull", "sread"}),
     "C04": dict(module="Deltio.Props.C04", conc=[("mix", 60, 3000)], trace_kinds={"pull", "expire"}, seq=[("deadlines", 300, 12000, 50)], pure=["rounds", "tracker"],
                 relevant={"pull", "sread", "stats", "adv", "clock", "csub"}),
@@ -24,17 +24,17 @@ PROPS = {
                 relevant={"pub", "pull", "sread"}),
     "C09": dict(module="Deltio.Props.C09", push=True, conc=[("mix", 60, 3000)], trace_kinds={"publish", "pull"}, seq=[("general", 200, 8000, 40), ("data", 100, 4000, 50)], pure=[],
                 relevant={"pub", "pull", "sread"}),
-    "C10": dict(module="Deltio.Props.C10", seq=[("namespace", 300, 12000, 50)], pure=[],
+    "C10": dict(module="Deltio.Props.C10", trace_kinds={"attach", "remove", "delete", "delete.begin", "delete.end"}, seq=[("namespace", 300, 12000, 50)], pure=[],
                 relevant={"ctopic", "gtopic", "dtopic", "csub", "gsub", "dsub", "pub", "pull", "ack", "mod", "lsubs", "ltopics", "ltsubs"}),
     "C11": dict(module="Deltio.Props.C11", conc=[("delete", 60, 2000)], trace_kinds={"attach", "remove", "delete", "delete.begin", "delete.end"}, seq=[("namespace", 300, 12000, 50), ("general", 100, 4000, 40)], pure=[],
                 relevant={"dsub", "dtopic", "ltsubs", "wtsubs", "gsub", "lsubs", "wsubs", "stats", "ctopic", "csub", "pub", "pull"}),
-    "C13": dict(module="Deltio.Props.C13", seq=[("namespace", 250, 10000, 50)], pure=["tokens"],
+    "C13": dict(module="Deltio.Props.C13", trace_kinds={"attach", "remove"}, seq=[("namespace", 250, 10000, 50)], pure=["tokens"],
                 relevant={"ltopics", "lsubs", "ltsubs", "wtopics", "wsubs", "wtsubs"}),
     "C15": dict(module="Deltio.Props.C15", conc=[("mix", 60, 3000), ("wake", 60, 3000)], trace_kinds={"pull"}, seq=[("batches", 80, 3000, 40), ("data", 100, 4000, 50)], pure=[],
                 relevant={"pull", "sread", "sopen"}),
-    "C17": dict(module="Deltio.Props.C17", seq=[("malformed", 300, 12000, 50)], pure=["names", "tokens", "ext", "ackids"],
+    "C17": dict(module="Deltio.Props.C17", trace_kinds=set(), seq=[("malformed", 300, 12000, 50)], pure=["names", "tokens", "ext", "ackids"],
                 relevant=ALL_SEQ_OPS),
-    "C06": dict(module="Deltio.Props.C06", seq=[], pure=[], conc=[("wake", 200, 8000), ("mix", 100, 4000)],
+    "C06": dict(module="Deltio.Props.C06", seq=[], pure=[], conc=[("wake", 200, 8000), ("swallow", 150, 6000), ("mix", 100, 4000)],
                 relevant={"pull", "probe", "sread", "stats"}, trace_kinds={"pull", "post", "modify", "expire"}),
     "C07": dict(module="Deltio.Props.C07", seq=[], pure=[], conc=[("burst", 80, 3000), ("delete", 60, 2000), ("cancel", 60, 2000)],
                 relevant=ALL_SEQ_OPS, trace_kinds={"delete.begin", "delete.end", "remove", "publish"}),
@@ -45,7 +45,7 @@ PROPS = {
     "C16": dict(module="Deltio.Props.C16", seq=[], pure=[], conc=[("cancel", 300, 12000)],
                 relevant=ALL_SEQ_OPS, trace_kinds={"attach", "remove", "pull"}),
     "C19": dict(module="Deltio.Props.C19", seq=[], pure=["flow", "flowq"], conc=[], relevant=set(), trace_kinds=set()),
-    "C18": dict(module="Deltio.Props.C18", seq=[("namespace", 60, 2000, 30)], pure=["names"],
+    "C18": dict(module="Deltio.Props.C18", trace_kinds=set(), seq=[("namespace", 60, 2000, 30)], pure=["names"],
                 relevant={"ctopic", "gtopic", "csub", "gsub", "dtopic", "dsub", "pub"}),
 }
 
@@ -105,6 +105,43 @@ def run_seq_cases(cases, seed=1, workers=1):
         res.append((im, sd, mo))
         i += n
     return res
+
+
+def mismatch_kind(trace, idx):
+    """Kind of the deviating turn: for a `state` digest mismatch, the turn of the same actor that
+    produced that state (the closest earlier non-state event of the same actor)."""
+    toks = trace[idx].split() if idx < len(trace) else []
+    if len(toks) <= 3:
+        return "end"
+    if toks[3] != "state":
+        return toks[3]
+    for j in range(idx - 1, -1, -1):
+        t = trace[j].split()
+        if len(t) > 3 and t[0] == toks[0] and t[1] == toks[1] and t[2] == toks[2] and t[3] != "state":
+            return t[3]
+    return "state"
+
+
+def project(prop, op, ans):
+    """Which part of a control-plane answer a property depends on (the rest belongs to other properties)."""
+    if op not in ("csub", "gsub", "lsubs", "wsubs"):
+        return ans
+    fields = {"C11": (0, 1), "C14": (0, 3), "C18": (0, 1), "C13": (0,), "C04": (2,), "C17": ()}.get(prop)
+    if fields is None:
+        return ans
+    out = []
+    for page in ans.split(" | "):
+        parts = page.split(" ")
+        status = parts[0]
+        proj = [status]
+        if len(parts) > 1 and status == "ok":
+            for res in parts[1].split(","):
+                fs = res.split("/", 3)
+                proj.append("/".join(fs[i] for i in fields if i < len(fs)))
+        if op in ("lsubs",) and prop == "C13" and len(parts) > 2:
+            proj.append(parts[2])
+        out.append(" ".join(proj))
+    return " | ".join(out)
 
 
 def first_diff(impl, model):
@@ -175,6 +212,9 @@ class Check:
             for sig, msg in fails:
                 self.oracle_fail.append((sig, msg, dict(mode="pure", stream=name, ops=[l], impl=[a], model=[b])))
             if a != b:
+                if name == "tracker" and not self.tracker_relevant(l, a, b):
+                    self.unattributed += 1
+                    continue
                 nd += 1
                 self.disagree.append(dict(mode="pure", stream=name, ops=[l], impl=[a], model=[b], first_diff=0))
         if len(self.samples) < 6 and lines:
@@ -182,8 +222,16 @@ class Check:
             self.samples.append({"stream": name, "op": lines[j], "impl": impl[j] if j < len(impl) else None})
         self.streams_run.append({"stream": "pure/" + name, "cases": len(lines), "disagreements": nd})
 
-    def stream_serves_dummy(self):
-        return None
+    def tracker_relevant(self, line, a, b):
+        """A tracker-stream disagreement belongs to the property whose operation deviates first."""
+        ops = line.split()[1:]
+        pa, pb = a.split(" | "), b.split(" | ")
+        for k, op in enumerate(ops):
+            if k >= len(pa) or k >= len(pb) or pa[k] != pb[k]:
+                kind = op.split(":")[0]
+                owners = {"add": ("C03", "C04"), "rm": ("C02",), "mod": ("C05",), "exp": ("C04", "C03"), "clear": ("C12", "C02")}
+                return self.prop in owners.get(kind, (self.prop,))
+        return True
 
     def stream_serves(self, name):
         # which pure oracle belongs to which property
@@ -208,9 +256,15 @@ class Check:
             j = first_diff(impl, model)
             if j is not None:
                 op = c[j].split()[0] if c[j].split() else ""
-                if op in self.cfg["relevant"] or impl[j].startswith(("PANIC", "ABORT", "HANG", "MISSING")):
+                kind = self.root_cause(c)
+                if kind is not None:
+                    # an actor turn deviates from the model: attribute by the kind of turn
+                    hit = kind in self.cfg.get("trace_kinds", set())
+                else:
+                    hit = op in self.cfg["relevant"] and project(self.prop, op, impl[j]) != project(self.prop, op, model[j])
+                if hit or impl[j].startswith(("PANIC", "ABORT", "HANG", "MISSING")):
                     nd += 1
-                    self.disagree.append(dict(mode="seq", stream=profile, ops=c, impl=impl, model=model, first_diff=j))
+                    self.disagree.append(dict(mode="seq", stream=profile, ops=c, impl=impl, model=model, first_diff=j, turn_kind=kind))
                 else:
                     self.unattributed += 1
         if len(self.samples) < 6 and cases:
@@ -227,10 +281,15 @@ class Check:
         verdicts, _, _ = run_model("trace", "\n".join(trace) + "\n")
         nd = 0
         kinds = self.cfg.get("trace_kinds", set())
-        for tl, v in zip(trace + ["end"], verdicts):
+        diverged = set()
+        for idx, (tl, v) in enumerate(zip(trace + ["end"], verdicts)):
             if v != "ok":
                 toks = tl.split()
-                kind = toks[3] if len(toks) > 3 else "end"
+                case_no = toks[0] if toks else "?"
+                if case_no in diverged:
+                    continue          # only the first deviating turn of a case is a root cause
+                diverged.add(case_no)
+                kind = mismatch_kind(trace, idx)
                 if kind in kinds or (kind == "end" and "post" in kinds):
                     nd += 1
                     self.disagree.append(dict(mode="trace", stream="conc/" + profile, ops=[tl], impl=[tl], model=[v], first_diff=0))
@@ -278,6 +337,8 @@ class Check:
                 if sig.startswith(self.prop.lower() + ":") or not sig.startswith(("c09:", "c14:")):
                     self.oracle_fail.append((sig, msg, dict(mode="push", stream="push", ops=lines, impl=answers, model=[])))
             for c in corr:
+                if c.startswith("status 102:") and self.is_known("c14:accepted-status-reposted:102"):
+                    continue          # same root cause as the listed finding
                 nd += 1
                 self.disagree.append(dict(mode="push", stream="push", ops=lines[:5], impl=[c], model=["pushAccepts"], first_diff=0))
             if p.returncode != 0:
@@ -285,6 +346,22 @@ class Check:
         if len(self.samples) < 6:
             self.samples.append({"stream": "push", "ops": scen[0][0][:12], "messages": len(scen[0][1]["msgs"])})
         self.streams_run.append({"stream": "push", "cases": len(scen), "disagreements": nd})
+
+    def root_cause(self, case):
+        """Re-run one disagreeing sequential case alone and validate its actor-turn log against the
+        model: returns the kind of the first deviating turn (post / pull / ack / modify / expire / publish /
+        attach / remove / delete…) or None when every turn agrees (the deviation is above the actors)."""
+        from . import common
+        try:
+            common.run_impl("seq", "\n".join(case) + "\n", self.seed)
+            trace = list(common.LAST_TRACE)
+            verdicts, _, _ = run_model("trace", "\n".join(trace) + "\n")
+            for idx, v in enumerate(verdicts):
+                if v != "ok":
+                    return mismatch_kind(trace, idx)
+        except Exception:
+            return None
+        return None
 
     def corpus_cases(self, profile):
         d = os.path.join(VERIF, "corpus", self.prop)
